@@ -190,6 +190,42 @@ let orun_case id main files stddir stdin prefiles =
   | FrontModel.PErr -> Printf.printf "orun %s transpile=err\n" id
   | FrontModel.PFuel -> Printf.printf "orun %s transpile=fuel\n" id
 
+(* ---- C15: the strings library (transliteration lib_f) and the Go specification (go_f) ---- *)
+let z_of_int n = if n = 0 then Z0 else if n > 0 then Zpos (pos_of_int n) else Zneg (pos_of_int (-n))
+let strlib_case id fname (fields : string list) =
+  let fld i = (match Stdlib.List.nth_opt fields i with Some x -> x | None -> "") in
+  let s i = bytes_of_hex (fld i) in
+  let z i = z_of_int (int_of_string (fld i)) in
+  let sl i = (let f = fld i in if f = "" then [] else if f = "-" then [[]] else Stdlib.List.map bytes_of_hex (Stdlib.String.split_on_char ',' f)) in
+  let os b = hex_of_bytes b in
+  let ob b = if b then "1" else "0" in
+  let oz v = z_to_string v in
+  let ol l = Printf.sprintf "n=%d:%s" (Stdlib.List.length l) (Stdlib.String.concat "," (Stdlib.List.map hex_of_bytes l)) in
+  let opt f = function Some v -> f v | None -> "model-undefined" in
+  let (l, g) = (match fname with
+    | "Index" -> (opt oz (StrLib.lib_index (s 0) (s 1)), oz (GoStrings.go_index (s 0) (s 1)))
+    | "Contains" -> (opt ob (StrLib.lib_contains (s 0) (s 1)), ob (GoStrings.go_contains (s 0) (s 1)))
+    | "Join" -> (opt os (StrLib.lib_join (sl 0) (s 1)), os (GoStrings.go_join (sl 0) (s 1)))
+    | "HasPrefix" -> (opt ob (StrLib.lib_has_prefix (s 0) (s 1)), ob (GoStrings.go_has_prefix (s 0) (s 1)))
+    | "HasSuffix" -> (opt ob (StrLib.lib_has_suffix (s 0) (s 1)), ob (GoStrings.go_has_suffix (s 0) (s 1)))
+    | "Count" -> (opt oz (StrLib.lib_count (s 0) (s 1)), oz (GoStrings.go_count (s 0) (s 1)))
+    | "Split" -> (opt ol (StrLib.lib_split (s 0) (s 1)), ol (GoStrings.go_split (s 0) (s 1)))
+    | "Repeat" -> (opt os (StrLib.lib_repeat (s 0) (z 1)), os (GoStrings.go_repeat (s 0) (z 1)))
+    | "Replace" -> (opt os (StrLib.lib_replace (s 0) (s 1) (s 2) (z 3)), os (GoStrings.go_replace (s 0) (s 1) (s 2) (z 3)))
+    | "ReplaceAll" -> (opt os (StrLib.lib_replace_all (s 0) (s 1) (s 2)), os (GoStrings.go_replace_all (s 0) (s 1) (s 2)))
+    | "Cut" -> (opt (fun ((a, b), f) -> os a ^ "," ^ os b ^ "," ^ ob f) (StrLib.lib_cut (s 0) (s 1)),
+                (let ((a, b), f) = GoStrings.go_cut (s 0) (s 1) in os a ^ "," ^ os b ^ "," ^ ob f))
+    | "CutPrefix" -> (opt (fun (a, f) -> os a ^ "," ^ ob f) (StrLib.lib_cut_prefix (s 0) (s 1)), (let (a, f) = GoStrings.go_cut_prefix (s 0) (s 1) in os a ^ "," ^ ob f))
+    | "CutSuffix" -> (opt (fun (a, f) -> os a ^ "," ^ ob f) (StrLib.lib_cut_suffix (s 0) (s 1)), (let (a, f) = GoStrings.go_cut_suffix (s 0) (s 1) in os a ^ "," ^ ob f))
+    | "TrimPrefix" -> (opt os (StrLib.lib_trim_prefix (s 0) (s 1)), os (GoStrings.go_trim_prefix (s 0) (s 1)))
+    | "TrimSuffix" -> (opt os (StrLib.lib_trim_suffix (s 0) (s 1)), os (GoStrings.go_trim_suffix (s 0) (s 1)))
+    | "TrimLeft" -> (opt os (StrLib.lib_trim_left (s 0) (s 1)), os (GoStrings.go_trim_left (s 0) (s 1)))
+    | "TrimRight" -> (opt os (StrLib.lib_trim_right (s 0) (s 1)), os (GoStrings.go_trim_right (s 0) (s 1)))
+    | "Trim" -> (opt os (StrLib.lib_trim (s 0) (s 1)), os (GoStrings.go_trim (s 0) (s 1)))
+    | "TrimSpace" -> (opt os (StrLib.lib_trim_space (s 0)), os (GoStrings.go_trim_space (s 0)))
+    | _ -> ("bad-case", "bad-case")) in
+  Printf.printf "strlib %s %s\ngospec %s %s\n" id l id g
+
 (* ---- C08: the model of double-quoted text ---- *)
 let dq_case id env word =
   let e = Stdlib.List.map (fun p -> match Stdlib.String.split_on_char '.' p with
@@ -274,6 +310,7 @@ let () =
       | ["parse"; id; main; files; stddir] -> parse_case id main files stddir
       | ["emit"; id; main; files; stddir] -> emit_case id main files stddir
       | ["run"; id; main; files; stddir] -> run_case id main files stddir
+      | "strlib" :: id :: fname :: fields -> strlib_case id fname fields
       | ["dq"; id; env; word] -> dq_case id env word
       | "fsh" :: id :: _ :: _ :: _ :: _ :: prefiles :: ops :: _ -> fsh_case id prefiles ops
       | "argv" :: id :: main :: files :: stddir :: stdin :: _ -> argv_case id main files stddir stdin
